@@ -221,7 +221,15 @@ func TestVerifC04(t *testing.T) {
 				{K: "api", B: 0, SignAs: 0, R: 1, Api: "incallall", InCall: 7},
 				{K: "deliver", Subj: 1},
 				{K: "drain"}, {K: "msg", C: 1, To: &hdRecipient{T: "call"}, Tag: 10}, {K: "drain"}}
-			return []*hdCase{{Id: 2, Mode: 2, Async: true, Ops: over}, {Id: 3, Mode: 2, Async: true, Ops: over2},
+			// a member whose connection no longer takes writes misses nothing: joins and leaves meanwhile are kept
+			// for its resume
+			wf := []hdOp{{K: "connect", C: 1}, {K: "connect", C: 2}, {K: "connect", C: 3}, {K: "connect", C: 4},
+				{K: "hello", C: 1, B: 0, U: 1}, {K: "hello", C: 2, B: 0, U: 2}, {K: "hello", C: 3, B: 0, U: 3}, {K: "hello", C: 4, B: 0, U: 4},
+				hdJoinOp(1, 1, 1), hdJoinOp(2, 1, 2), hdJoinOp(3, 1, 3), {K: "wfail", C: 2},
+				hdJoinOp(4, 1, 4), hdJoinOp(3, 0, 0), hdJoinOp(1, 2, 1), hdJoinOp(1, 1, 1),
+				{K: "drop", C: 2}, hdJoinOp(3, 1, 3),
+				{K: "connect", C: 5}, {K: "hello", C: 5, Ht: "resume", Id: &hdIdRef{T: "priv", C: 2}}, hdJoinOp(4, 0, 0)}
+			return []*hdCase{{Id: 4, Mode: 1, Ops: wf}, {Id: 2, Mode: 2, Async: true, Ops: over}, {Id: 3, Mode: 2, Async: true, Ops: over2},
 				{Id: 0, Mode: 2, Async: true, Ops: ghost, Finding: "C04/observers/cross-subject-reorder"},
 				{Id: 1, Mode: 2, Async: true, Ops: stale, Finding: "C04/observers/stale-joined-notice"}}
 		}})
@@ -345,8 +353,29 @@ func TestVerifC06(t *testing.T) {
 				hdJoinOp(1, 2, 2), // takes over the Nextcloud session id of the disconnected session: it is kicked
 				{K: "connect", C: 3}, {K: "hello", C: 3, Ht: "resume", Id: &hdIdRef{T: "priv", C: 2}},
 				{K: "connect", C: 4}, {K: "hello", C: 4, Ht: "resume", Id: &hdIdRef{T: "priv", C: 2}}}
+			// the connection breaks in a way the server only notices when it writes (its writes fail, it still
+			// believes the client connected): what is addressed to the session meanwhile is kept and delivered, in
+			// order, by the resume - after the connection finally dropped, or as a takeover while it is still attached
+			w := func(take bool) []hdOp {
+				o := []hdOp{{K: "connect", C: 1}, {K: "connect", C: 2}, {K: "connect", C: 3}, {K: "hello", C: 1, B: 0, U: 1}, {K: "hello", C: 2, B: 0, U: 2}, {K: "hello", C: 3, B: 0, U: 3},
+					hdJoinOp(1, 1, 1), hdJoinOp(2, 1, 2), {K: "wfail", C: 2},
+					{K: "msg", C: 1, To: hdToSession(2), Tag: 31}, {K: "msg", C: 1, To: &hdRecipient{T: "room"}, Tag: 32},
+					hdJoinOp(3, 1, 3),
+					{K: "msg", C: 3, To: &hdRecipient{T: "user", U: 2}, Tag: 33}, {K: "ctl", C: 1, To: hdToSession(2), Tag: 34},
+					{K: "msg", C: 1, To: hdToSession(2), Tag: hdChatRefreshTag}, {K: "msg", C: 3, To: hdToSession(2), Tag: hdChatRefreshTag},
+					hdJoinOp(3, 0, 0)}
+				if !take {
+					o = append(o, hdOp{K: "drop", C: 2}, hdOp{K: "msg", C: 1, To: hdToSession(2), Tag: 35})
+				}
+				o = append(o, hdOp{K: "connect", C: 4}, hdOp{K: "hello", C: 4, Ht: "resume", Id: &hdIdRef{T: "priv", C: 2}},
+					hdOp{K: "msg", C: 1, To: hdToSession(4), Tag: 36})
+				if take {
+					o = append(o, hdOp{K: "drop", C: 2}, hdOp{K: "msg", C: 1, To: hdToSession(4), Tag: 37})
+				}
+				return o
+			}
 			return []*hdCase{{Id: 0, Mode: 1, Ops: ops}, {Id: 1, Mode: 1, Ops: gone}, {Id: 2, Mode: 1, Ops: chat}, {Id: 3, Mode: 1, Ops: lost},
-				{Id: 4, Mode: 1, Ops: dis}, {Id: 5, Mode: 1, Ops: kick}}
+				{Id: 4, Mode: 1, Ops: dis}, {Id: 5, Mode: 1, Ops: kick}, {Id: 6, Mode: 1, Ops: w(false)}, {Id: 7, Mode: 1, Ops: w(true)}}
 		}})
 }
 
